@@ -94,7 +94,7 @@ macro_rules! builder {
    $merge:ident, $zip:ident, $combine_latest:ident, $with_latest_from:ident,
    $take_until:ident, $skip_until:ident, $sample:ident,
    $merge_all:ident, $concat_all:ident, $flatten:ident, $flat_map:ident, $concat_map:ident,
-   $finalize:ident) => {
+   $finalize:ident, $share:ident) => {
     pub fn $fname(env: &$env, x: usize) -> $bx {
       let ast = env.prog[x - 1].clone();
       let sh = env.sh.clone();
@@ -276,6 +276,7 @@ macro_rules! builder {
           }
         }
         "finalize" => src(ast.s1).$finalize(move || sh.bump(b)).box_it(),
+        "share" => src(ast.s1).$share().box_it(),
         other => panic!("harness: unknown op {other}"),
       }
     }
@@ -306,12 +307,12 @@ impl Iterator for CountIter {
 builder!(
   build_l, EnvL, LBox, local, LSubscriber,
   merge, zip, combine_latest, with_latest_from, take_until, skip_until, sample,
-  merge_all, concat_all, flatten, flat_map, concat_map, finalize
+  merge_all, concat_all, flatten, flat_map, concat_map, finalize, share
 );
 builder!(
   build_t, EnvT, TBox, threads, TSubscriber,
   merge_threads, zip_threads, combine_latest_threads, with_latest_from_threads,
   take_until_threads, skip_until_threads, sample_threads,
   merge_all_threads, concat_all_threads, flatten_threads, flat_map_threads, concat_map_threads,
-  finalize_threads
+  finalize_threads, share_threads
 );
